@@ -277,7 +277,7 @@ MUST_FAIL = ("hash-bit", "root-bit", "drop-hash", "dup-hash", "extra-hash", "swa
 
 
 def gen_spv_tamper(tier, seed):
-    top = 7 if tier == "quick" else 11
+    top = 7 if tier == "quick" else 10
     hi_bit = 20 if tier == "quick" else 26
     cases = []
     for n in range(1, top + 1):
@@ -506,11 +506,11 @@ def gen_compact(tier, seed):
         for e in exps_struct:
             cases.append({"kind": "structured", "e": e})
     else:
-        for e in range(0, 35):
+        for e in range(1, 33):
             for hi in range(256):
                 cases.append({"kind": "full", "e": e, "hi": hi})
         for e in exps_struct:
-            if e >= 35:
+            if not 1 <= e <= 32:
                 cases.append({"kind": "structured", "e": e})
     for k0 in range(0, 256, 16):
         cases.append({"kind": "targets", "k0": k0, "seed": seed})
@@ -933,7 +933,7 @@ def engines(tier, seed):
             gen_spv_tamper,
             run_spv_tamper,
             kind="E1",
-            rule="every proof of every tree with 1..7 (thorough 1..11) leaves x all match subsets x {every single bit of every hash, of the header root, of every flag byte, "
+            rule="every proof of every tree with 1..7 (thorough 1..10) leaves x all match subsets x {every single bit of every hash, of the header root, of every flag byte, "
             "bits 0..16 of the transaction count (bits 17..20 quick / 17..26 thorough only for trees <= 4 leaves: memory), count set to 0/n-1/n+1/2n/2n+1/ceil(n/2), flag bytes dropped/appended, "
             "each hash dropped, duplicated, swapped with its neighbour, a foreign hash prepended/appended}. Oracle: is_valid() True => every proved id is a block id; "
             "for altered hash lists / root additionally is_valid() must not be True. Non-trivial = each (proof, alteration)",
@@ -952,9 +952,9 @@ def engines(tier, seed):
             run_compact,
             kind="E1",
             rule="quick: exponents 0..40,0x7f,0x80,0xfe,0xff x ~11 000 structured 24-bit mantissas (each byte swept over 0..255 with the other two over {00,01,7f,80,ff}); "
-            "thorough: ALL 2^24 mantissas (sign bit included) x every exponent 0..34, structured set above 34. bits_to_target must be the int of SetCompact "
+            "thorough: ALL 2^24 mantissas (sign bit included) x every exponent 1..32 (2^29 compact values), structured set for the other exponents. bits_to_target must be the int of SetCompact "
             "(negative values: refused or magnitude; overflowing: skipped), target_to_bits must equal GetCompact on each consensus target, on its all-ones "
-            "full-precision neighbour, and on 2^k, 2^k+-1, ffff<<k, 7fffff<<k, 800000<<k, 7f<<k, 80<<k, filler>>(255-k) for every k<256 and 0",
+            "full-precision neighbour (thorough sweep: for mantissas whose low byte is 00/80/ff), and on 2^k, 2^k+-1, ffff<<k, 7fffff<<k, 800000<<k, 7f<<k, 80<<k, filler>>(255-k) for every k<256 and 0",
         ),
         Engine(
             "pow",
